@@ -295,7 +295,8 @@ def run_r1(repo: Repo, res: Result) -> None:
             final = [s for s in freezes if cfg.dominates(s, EXIT)]
             both = [s for s in freezes if s in mutating]
             late = [m for m in mutating for s in final if m is not s and cfg.paths_avoiding(s, m, set())]
-            typed = all(_through_digraph(T, v, c.args[0]) for s in freezes for c in ev[s]["freeze"] if _lib_name(repo, v, c) == "networkx.freeze" and c.args)
+            # the frozen object must be the graph itself (a name or attribute holding it), not a copy made for the occasion
+            typed = all(isinstance(c.args[0], (ast.Name, ast.Attribute)) and _is_digraph(T, v, c.args[0]) for s in freezes for c in ev[s]["freeze"] if _lib_name(repo, v, c) == "networkx.freeze" and c.args)
             if both and not late and final:
                 res.undecide("C15.R1", key, f"`{header(both[0])}` both modifies and freezes the graph and could not be expanded: the order of the two cannot be seen", where(init, both[0]))
             else:
@@ -306,7 +307,7 @@ def run_r1(repo: Repo, res: Result) -> None:
                 elif late:
                     detail = f"`{header(late[0])}` modifies the graph after it has been frozen (freeze must follow the construction)"
                 elif not typed:
-                    detail = "nx.freeze is not applied to the graph"
+                    detail = "nx.freeze is not applied to the graph attribute itself (a copy or another object is frozen)"
                 res.add("C15.R1", key, ok, detail, where(init, init.node), kind="dominance")
         # nodes before import edges
         params = [p for p in init.param_names if p != Roots.self_name(init)]
@@ -388,7 +389,9 @@ def _roots(repo: Repo) -> Roots:
 def _describe(tag, root_fn: FuncInfo) -> str:
     r, level = tag
     what = "receiver" if r[0] == "self" else f"argument `{r[2]}`" if r[0] == "param" else f"module-level `{r[1]}`" if r[0] == "global" else f"object of unknown origin `{r[1]}`"
-    return {0: f"its {what}", 1: f"state owned by its {what}", 2: f"an object reachable from its {what}"}[level] if r[0] in ("self", "param") else what
+    if r[0] not in ("self", "param"):
+        return what
+    return {0: f"its {what}", 1: f"state owned by its {what}", 11: f"an object held by its {what}", 12: f"an object held inside its {what}"}.get(level, f"an object reachable from its {what}")
 
 
 class Rewrite:
@@ -485,13 +488,25 @@ class _RewriteView:
         for a in names:
             if implies(guard, atom(f"bool({a})")) or implies(guard, atom(f"{a} is True")):
                 return True
-        unconditional = guard == ("const", True)
+        # the condition is made of nothing but tests of the old value's own attributes (or locals holding them): propositional
+        # reasoning is then complete, and "not implied" means there is a path with the flag clear
+        from core.guards import atoms_of
+
+        known = {n for n, val in self.single.items() if any(norm(val).startswith(f"{i}.") for i in self.ident)}
+
+        def plain(a: str) -> bool:
+            body = a[5:-1] if a.startswith("bool(") and a.endswith(")") else a.split(" is ")[0] if " is " in a else a.split(" == ")[0] if " == " in a else None
+            if body is None:
+                return False
+            return any(body.startswith(f"{i}.") and body[len(i) + 1:].isidentifier() for i in self.ident) or body in known
+
+        definite = all(plain(a) for a in atoms_of(guard))
         if self.outer is not None:
             o = self.outer(k)
             if o:
                 return True
-            return False if (o is False and unconditional) else None
-        return False if unconditional else None
+            return False if (o is False and definite) else None
+        return False if definite else None
 
     def keywords(self, call: ast.Call) -> tuple[dict[str, ast.expr], bool]:
         """Keyword arguments with `**name` expanded where name is a dict display with constant keys; second item: all known."""
